@@ -24,6 +24,7 @@ mod pki;
 mod c01;
 mod c02;
 mod c10;
+mod c09;
 
 use std::io::{BufRead, Write};
 
@@ -78,6 +79,7 @@ fn lookup(id: &str) -> Option<(&'static str, Gen, Exec)> {
         "C01" => Some(("C01", c01::generate, c01::exec)),
         "C02" => Some(("C02", c02::generate, c02::exec)),
         "C10" => Some(("C10", c10::generate, c10::exec)),
+        "C09" => Some(("C09", c09::generate, c09::exec)),
         _ => None,
     }
 }
